@@ -12,7 +12,7 @@ def replay(pid, path):
     try:
         if 'nondet_draws' not in r:
             print(f"replay file {path} records an unreachability verdict (no trace to replay): re-run the check instead"); return 2
-        ll = vcheck.compile_ll(work, r['harness'], r['defines'])
+        ll = vcheck.compile_ll(work, r['harness'], r['defines'], r.get('cflags', ()))
         text, rep = ir2c.translate(open(ll).read(), r['q'])
         cfile = os.path.join(work, r['query'] + '.c'); open(cfile, 'w').write(text)
         ok, why = vcheck.native_replay(cfile, r['nondet_draws'], work)
